@@ -70,3 +70,38 @@ extern "C" void harness_dfa(void) {
   if (!ok && wantFail == 1) VX_REACH("rejected at the second child");
   if (!dtd && ety[0] == ContentSpecNode::Any_Other && ok && n >= 1 && !pcd[0]) VX_REACH("wildcard ##other accepted a child");
 }
+
+// C08-P2: counting states (minOccurs/maxOccurs counters of the DFA interpreter: handleRepetitions and the end-of-content minOccurs test).
+// The automaton is the one buildDFA produces for the schema particle sequence  ( a{min,max} , b? )  - state 0 --a--> 1, state 1 --a--> 1
+// (counting state: Occurence{min,max,elemIndex of a}), state 1 --b--> 2, states 1 and 2 final - with SYMBOLIC bounds 1 <= min <= max <= 4 or
+// max unbounded, and every child sequence of <= NC elements over {a, b, c}.  Accepted iff the children are a^k b? with min <= k <= max.
+#ifndef NC
+#define NC 5
+#endif
+extern "C" void harness_dfa_count(void) {
+  VxMM mm;
+  VxRaw<QName> qs[NC + 2]; VxRaw<DFAContentModel> cms;
+  unsigned INV = XMLContentModel::gInvalidTrans;
+  unsigned tt[3][2] = { { 1, INV }, { 1, 2 }, { INV, INV } }; unsigned* rows[3] = { tt[0], tt[1], tt[2] }; bool fin[3] = { false, true, true };
+  Nm decl[2]; decl[0].s[0] = 'a'; decl[0].s[1] = 0; decl[0].uri = 2; decl[1].s[0] = 'b'; decl[1].s[1] = 0; decl[1].uri = 2;
+  QName* emap[2]; ContentSpecNode::NodeTypes ety[2] = { ContentSpecNode::Leaf, ContentSpecNode::Leaf };
+  for (int e = 0; e < 2; e++) emap[e] = mkq(&qs[NC + e].obj, decl[e]);
+  int mn = (int)nondet_u8(), mx = (int)(signed char)nondet_u8();
+  VX_ASSUME(mn >= 1 && mn <= 4 && (mx == -1 || (mx >= mn && mx <= 4)) && !(mn == 1 && mx == 1));      // a counter exists only for a real repetition
+  DFAContentModel::Occurence occ(mn, mx, 0); DFAContentModel::Occurence* cs[3] = { 0, &occ, 0 };
+  DFAContentModel* cm = &cms.obj; *(void***)cm = &_ZTVN11xercesc_4_015DFAContentModelE[2];
+  cm->fElemMap = emap; cm->fElemMapType = ety; cm->fElemMapSize = 2; cm->fEmptyOk = false; cm->fFinalStateFlags = fin; cm->fTransTable = rows; cm->fTransTableSize = 3;
+  cm->fCountingStates = cs; cm->fDTD = false; cm->fIsMixed = false; cm->fMemoryManager = &mm;
+  XMLSize_t n = nondet_u64(); VX_ASSUME(n <= NC);
+  Nm c[NC]; QName* kids[NC];
+  for (int i = 0; i < NC; i++) { c[i].s[0] = nondet_u16(); VX_ASSUME(c[i].s[0] >= 'a' && c[i].s[0] <= 'c'); c[i].s[1] = 0; c[i].uri = 2; kids[i] = mkq(&qs[i].obj, c[i]); }
+  XMLSize_t fail = 99; bool ok = cm->DFAContentModel::validateContent(kids, n, 0, &fail, &mm);
+  // reference: a^k b?  with min <= k <= max
+  XMLSize_t k = 0; while (k < n && k < NC && c[k].s[0] == 'a') k++;
+  bool rest = (k == n) || (k + 1 == n && c[k].s[0] == 'b');
+  bool want = rest && k >= (XMLSize_t)mn && (mx == -1 || k <= (XMLSize_t)mx);
+  VX_ASSERT(ok == want, "(a{min,max}, b?) accepts exactly a^k b? with min <= k <= max");
+  if (ok && n == NC) VX_REACH("longest sequence accepted");
+  if (!ok && rest && k >= 1 && k < (XMLSize_t)mn && k == n) VX_REACH("rejected: content ends before minOccurs is reached");
+  if (!ok && rest && mx != -1 && k > (XMLSize_t)mx) VX_REACH("rejected: more than maxOccurs");
+}
